@@ -61,19 +61,24 @@ TAGS = {
     42: 'first order absorption: 1/KA is not MAT',
     43: 'zero order absorption: duration/2 is not MAT',
     44: 'number of transit compartments / rates differs from the request',
+    46: '_update_numerators differs from the hand model (numerator of every detected transit rate := their number)',
     45: 'transit/absorption rate is not the documented constant (n/MDT, 1/MAT, 2*MAT) built by the code',
     51: 'allometry: parameter is not P*(X/Z)**T',
     52: 'allometry is not neutral at the reference value',
     28: 'eta transformation (boxcox/tdist/john_draper) changes the model at eta = 0',
     29: 'add_iov changes the model at eta = 0',
     53: 'BLQ transformation (M3/M4) changes the model for observations above the LLOQ',
+    7: 'add_allometry statements differ from the hand model',
+    8: 'add_iov statements differ from the hand model',
+    9: 'remove_iov statements differ from the hand model',
+    10: 'transform_blq (M3/M4) statements differ from the hand model',
     37: 'add_iov: a symbol is not its value before with eta := eta + IOV eta of the occasion (requested etas only)',
     38: 'add_iov: an existing symbol got another assignment / a new symbol is declared twice',
     39: 'remove_iov(add_iov(M)) is not M',
     90: 'the implementation raised an exception on a documented call',
     91: 'the implementation refused (ValueError/NotImplementedError) a valid documented request',
 }
-CORR = (1, 2, 3, 5, 6)
+CORR = (1, 2, 3, 5, 6, 7, 8, 9, 10, 46)
 # oracle tag -> finding id that may excuse it (only when listed open) ; guard tag that must be present
 ORACLE_FINDING = {13: ('C09-COV-ADD-NOT-NEUTRAL', 201), 23: ('C09-IIV-EXP-ADD-NOT-NEUTRAL', 202),
                   24: ('C09-IIV-LOGIT-NOT-NEUTRAL', 202), 25: ('C09-IIV-RELOG-NOT-NEUTRAL', 202),
@@ -660,9 +665,105 @@ def build_iov(spec, rng):
         rng.shuffle(vals)
         for nm, v in zip(alletas, vals):
             e[nm] = F(v if rng.random() < 0.7 else -v)
-    term = "(CIov (mkIov %s\n %s\n %s\n %s %s\n %s %s))" % (before_t, after_t, ct.opt(removed_t), names.p(occ), etas_t,
-                                                             ct.lst([names.p(x) for x in syms]), envs_term(envs, names))
+    # documented names of the declared symbols: IOV_<n>, ETAI<n> with the n of the IOV etas
+    items_t = ct.lst([ct.pair(names.p(f'IOV_{n}'), names.p(f'ETAI{n}')) for n in sorted(byn)])
+    term = "(CIov (mkIov %s\n %s\n %s\n %s %s\n %s %s %s))" % (before_t, after_t, ct.opt(removed_t), names.p(occ), etas_t,
+                                                                ct.lst([names.p(x) for x in syms]), envs_term(envs, names),
+                                                                items_t)
     return term, {'kind': 'iov', 'ncalls': len(calls), 'distribution': last.get('distribution', 'disjoint')}
+
+
+def build_num(spec, rng):
+    """odes._update_numerators on a transit model whose rate numerators were set to a wrong integer."""
+    from pharmpy.basic import Expr
+    from pharmpy.model import CompartmentalSystem, CompartmentalSystemBuilder
+    im = impl()
+    mod = im.module('odes.py')
+    model = im.fn('set_transit_compartments')(load_model(spec), spec['n'])
+    wrong = spec['wrong']
+    odes = model.statements.ode_system
+    tnames = [nm for nm in odes.compartment_names if nm.startswith('TRANSIT')]
+    if spec['direct']:
+        cb = CompartmentalSystemBuilder(odes)
+        for nm in tnames:
+            comp = odes.find_compartment(nm)
+            to, rate = odes.get_compartment_outflows(comp)[0]
+            full = model.statements.before_odes.full_expression(rate)
+            _, den = full.as_numer_denom()
+            cb.add_flow(comp, to, Expr.integer(wrong) / den)
+        model = model.replace(statements=model.statements.before_odes + CompartmentalSystem(cb) + model.statements.after_odes)
+    else:
+        st = model.statements
+        for nm in tnames:
+            rate = odes.get_compartment_outflows(odes.find_compartment(nm))[0][1]
+            if not rate.is_symbol():
+                return None, {'skip': 'rate is not a symbol', 'broken': True}
+            _, den = st.find_assignment(rate.name).expression.as_numer_denom()
+            st = st.reassign(rate, Expr.integer(wrong) / den)
+        model = model.replace(statements=st)
+    names = new_names()
+    odes = model.statements.ode_system
+
+    def numer_term(e):
+        if e.is_integer():
+            return f"(NInt {ct.q(F(int(e)))})"
+        if e.is_symbol():
+            return f"(NSym {names.p(e.name)})"
+        return "NOther"
+    rates, defs = [], {}
+    for nm in tnames:
+        rate = odes.get_compartment_outflows(odes.find_compartment(nm))[0][1]
+        num, den = rate.as_numer_denom()
+        rates.append("{| tr_numer := %s; tr_denom := %s |}" % (numer_term(num), sc.expr(den, names)))
+        if num.is_symbol():
+            a = model.statements.find_assignment(num.name)
+            if a is not None:
+                n2, d2 = a.expression.as_numer_denom()
+                defs[num.name] = ct.pair(names.p(num.name), ct.pair(numer_term(n2), sc.expr(d2, names)))
+    after = mod._update_numerators(model)
+    odes2 = after.statements.ode_system
+    outs = []
+    for nm in tnames:
+        rate = odes2.get_compartment_outflows(odes2.find_compartment(nm))[0][1]
+        a = after.statements.find_assignment(rate.name) if rate.is_symbol() else None
+        outs.append(sc.expr(a.expression if a is not None else rate, names))   # one level, as the model looks it up
+    eg = EnvGen(rng, after)
+    envs = eg.envs(names, 4)
+    term = "(CNum (mkNum %s %s\n %s %s))" % (ct.lst(rates), ct.lst(list(defs.values())), ct.lst(outs), envs_term(envs, names))
+    return term, {'kind': 'num', 'direct': spec['direct']}
+
+
+def build_blq(spec, rng):
+    """transform_blq M3/M4: the statement-level hand model against the implementation."""
+    import sympy
+    im = impl()
+    model = load_model(spec)
+    after = im.fn('transform_blq')(model, method=spec['method'], lloq=spec['lloq'])
+
+    def tf(e):   # PHI -> the function id reserved for it (exported through sympy's gamma)
+        return e.replace(lambda x: isinstance(x, sympy.Function) and type(x).__name__ == 'PHI',
+                         lambda x: sympy.gamma(x.args[0]))
+    names = new_names()
+    before_t = stmts_term(model.statements, names, tf)
+    after_t = stmts_term(after.statements, names, tf)
+    sd = after.statements.find_assignment('SD')
+    lloq = after.statements.find_assignment('LLOQ')
+    dv = model.datainfo.dv_column.name
+    eps = list(model.random_variables.epsilons.names)
+    args = ("{| b_y := %s; b_sd_stmt := %s; b_sd := %s; b_lloq_stmt := %s; b_level := (Sym %s); "
+            "b_above := (CRel OGe (Sym %s) (Sym %s)); b_fflag := %s; b_cumd := %s; b_cumdz := %s; b_epsilons := %s; "
+            "b_m4 := %s |}" % (names.p('Y'), stmt_term(sd, names, tf), names.p('SD'), ct.opt(stmt_term(lloq, names, tf)),
+                               names.p('LLOQ'), names.p(dv), names.p('LLOQ'), names.p('F_FLAG'), names.p('CUMD'),
+                               names.p('CUMDZ'), ct.lst([names.p(e) for e in eps]), ct.boolean(spec['method'] == 'm4')))
+    eg = EnvGen(rng, after)
+    eg.rules['SIGMA'] = [F(1), F(4)]
+    eg.rules['sigma'] = [F(1), F(4)]
+    eg.rules['sigma_prop'] = [F(1), F(4)]
+    eg.rules['sigma_add'] = [F(1), F(4)]
+    eg.rules[dv] = [F(0), F(1), F(2), F(3)]
+    envs = eg.envs(names, 8)
+    term = "(CBlq (mkBlq %s\n %s\n %s\n %s))" % (args, before_t, after_t, envs_term(envs, names))
+    return term, {'kind': 'blq', 'method': spec['method']}
 
 
 def build_rem(spec, rng):
@@ -780,7 +881,7 @@ def build_cat(spec, rng):
     return term, {'kind': 'cat', 'ncats': len(cats), 'nan': any(c is None for c in cats)}
 
 
-BUILDERS = {'iov': build_iov, 'rem': build_rem, 'same': build_same, 'cov': build_cov, 'iiv': build_iiv, 'err': build_err, 'ruv': build_ruv, 'ode': build_ode,
+BUILDERS = {'num': build_num, 'blq': build_blq, 'iov': build_iov, 'rem': build_rem, 'same': build_same, 'cov': build_cov, 'iiv': build_iiv, 'err': build_err, 'ruv': build_ruv, 'ode': build_ode,
             'allo': build_allo, 'cat': build_cat}
 
 
@@ -884,6 +985,8 @@ def pheno_ode_specs(full):
         out.append(transit_spec({'kind': 'ode', 'model': 'pheno', 'prep': [['set_first_order_absorption']], 'what': 'transit', 'n': ns}))
         out.append(transit_spec({'kind': 'ode', 'model': 'pheno', 'prep': [['set_first_order_absorption']], 'what': 'transit', 'n': ns,
                                  'keep_depot': False}))
+    for n, wrong, direct in ([(3, 5, False), (3, 5, True), (2, 7, False), (4, 1, True)] + ([(5, 2, False), (2, 3, True)] if full else [])):
+        out.append({'kind': 'num', 'model': 'pheno', 'n': n, 'wrong': wrong, 'direct': direct})
     out.append({'kind': 'ode', 'model': 'pheno', 'what': 'fo'})
     out.append({'kind': 'ode', 'model': 'pheno', 'what': 'zo'})
     out.append({'kind': 'ode', 'model': 'pheno', 'prep': [['set_zero_order_absorption']], 'what': 'fo'})
@@ -986,6 +1089,8 @@ def same_specs(full):
     out.append({'kind': 'same', 'model': 'pheno', 'what': 'iov', 'occ': 'FA1', 'params': ['CL', 'VC'], 'distribution': 'joint'})
     for meth in ['m3', 'm4']:
         out.append({'kind': 'same', 'model': 'pheno', 'what': 'blq', 'method': meth, 'lloq': 0.1})
+        out.append({'kind': 'blq', 'model': 'pheno', 'method': meth, 'lloq': 0.1})
+        out.append({'kind': 'blq', 'model': 'pheno', 'prep': [['set_additive_error_model']], 'method': meth, 'lloq': 0.5})
     if full:
         out.append({'kind': 'same', 'model': 'pheno', 'what': 'iov', 'occ': 'APGR', 'params': ['VC']})
         out.append({'kind': 'same', 'model': 'pheno', 'prep': [['set_combined_error_model']], 'what': 'blq', 'method': 'm4', 'lloq': 0.5})
